@@ -21,7 +21,26 @@ BUDGET = {"quick": (16, 40), "thorough": (16, 1500)}
 
 
 @st.composite
+def _rings(draw):
+    """many small rings of small single-bead residues: every ring closure places a residue next to a
+    positioned graph neighbour other than the one it is grown from"""
+    sigma = draw(st.sampled_from([0.2, 0.3]))
+    res = {"resname": "RA", "atoms": [{"name": "a1", "type": "TA", "mass": 36.0}], "bonds": [], "vs": None}
+    n = draw(st.integers(3, 4))
+    mt = {"name": "MA", "residues": [res] * n, "res_edges": [[i, (i + 1) % n] for i in range(n)], "shape": "ring"}
+    count = draw(st.integers(25, 60))
+    edge = round((count * n * 14.0) ** (1.0 / 3.0), 1)
+    return {"rng": draw(st.integers(0, 2**31 - 1)), "comb": 2,
+            "atomtypes": [{"name": "TA", "mass": 36.0, "sigma": sigma, "eps": 2.0}],
+            "moltypes": [mt], "molecules": [["MA", count]],
+            "opts": {"box": [edge, edge, edge], "step_fudge": draw(st.sampled_from([0.8, 1.0])),
+                     "grid_spacing": 0.5}, "coords": None, "build": None}
+
+
+@st.composite
 def _strategy(draw):
+    if draw(st.integers(0, 7)) == 0:
+        return draw(_rings())
     spec = draw(gc.system(max_res=8, max_total_mol=5))
     by_name = {mt["name"]: mt for mt in spec["moltypes"]}
     nres = sum(cnt * len(by_name[name]["residues"]) for name, cnt in spec["molecules"])
@@ -141,4 +160,6 @@ def check(spec, ctx):
         ctx.label("user_grid")
     if len(stats["sizes"]) >= 2:
         ctx.label("mixed_sizes")
-    ctx.nontrivial = stats["cross"] >= 1 and len(stats["sizes"]) >= 2
+    if spec["moltypes"][0].get("shape") == "ring" and len(spec["moltypes"]) == 1 and spec["molecules"][0][1] >= 25:
+        ctx.label("many_ring_closures")
+    ctx.nontrivial = stats["cross"] >= 1 and (len(stats["sizes"]) >= 2 or spec["molecules"][0][1] >= 25)
